@@ -32,6 +32,7 @@ type Profile struct {
 	Noop         map[string]bool
 	Tracked      []string // region-name prefixes that havoc-calls leave alone
 	AutoLoopInv  []Clause // invariants given to every loop that has none of its own
+	Guarded      map[string][2]*Node // region -> (read condition, write condition)
 	lockHook     func(c *FnCtx, fr *frame, st *State, name string, cc *ssa.CallCommon)
 }
 
